@@ -239,7 +239,7 @@ impl BuildJob<'_> {
             tmp_base_name.push(".redo.tmp");
             df.do_dir.join(tmp_base_name)
         };
-        helpers::unlink(&tmp_name).map_err(RedoError::opaque_error)?;
+        helpers::remove_tmp_output(&tmp_name).map_err(RedoError::opaque_error)?;
         let out_file = tempfile::tempfile().map_err(RedoError::opaque_error)?;
         helpers::close_on_exec(out_file.as_raw_fd(), true).map_err(RedoError::opaque_error)?;
         // this will run in the dofile's directory, so use only basenames here
@@ -684,7 +684,7 @@ impl BuildJob<'_> {
         }
         // rv might have changed up above
         if rv != EXIT_SUCCESS {
-            helpers::unlink(tmp_name).expect("failed to remove temporary output file");
+            helpers::remove_tmp_output(tmp_name).expect("failed to remove temporary output file");
             if let Err(e) = sf.set_failed(ptx.state().env()) {
                 log_err!("{:?}: set failed: {}", t, e);
                 rv = EXIT_BUILD_JOB_ERROR;
